@@ -5,3 +5,7 @@
 package frame
 
 //@ inv (*codec) codecsNonNil: forall op primitive.OpCode :: has(self.messageCodecs, op) ==> self.messageCodecs[op] != nil
+
+//@ func (*codec).ConvertFromRawFrame
+//@   prop C04, C05
+//@   requires hdr: frame.Header != nil
